@@ -41,7 +41,8 @@ TRUSTED_BASE = [
     "Uint63 primitive hash only in scratch Cases files, never under a theorem",
 ]
 ASSUMPTIONS = [
-    "coordinates are ints (continuous positions: multiples of 1/4); colours and markers come from fixed 6-element palettes; sizes are ints",
+    "coordinates are ints (continuous positions: multiples of 1/4); colours and markers come from fixed palettes (strings and one tuple marker); "
+    "sizes and z-orders are multiples of 1/4 (whole values passed as int, fractional ones as float), so truncation / coercion of any of the four keys is visible",
     "portrayals return the four keys of the statement only (alpha/edgecolors/linewidths are outside the statement and not generated)",
     "constructor signatures: the first parameter is named self and model_params has no key 'self'",
     "property layers are int layers of the grid's shape with a non-degenerate colour scale (vmax > vmin); drawn without colorbar",
@@ -118,6 +119,21 @@ def _rand_addr(rng, sp):
     return rng.choice(_addresses(sp))
 
 
+def _gen_size(rng):
+    """marker size in QUARTER units: mostly whole numbers, a third fractional (7 = 1.75)"""
+    return 4 * rng.randint(1, 60) if rng.random() < 0.65 else rng.randint(1, 240)
+
+
+def _gen_zorder(rng):
+    """z-order in QUARTER units: whole layers -1..3 and in-between ones (6 = 1.5, 2 = 0.5, -2 = -0.5)"""
+    return 4 * rng.randint(-1, 3) if rng.random() < 0.6 else rng.choice([-2, 1, 2, 3, 5, 6, 7, 9, 10, 11])
+
+
+def _q(v):
+    """quarter units -> the Python number handed to Mesa: int when whole, float otherwise"""
+    return v // 4 if v % 4 == 0 else v / 4
+
+
 def _gen_portrayal(rng):
     style = rng.random()
     nk = rng.randint(1, 3)
@@ -126,12 +142,12 @@ def _gen_portrayal(rng):
         if style < 0.15:
             tab.append([None, None, None, None])
         elif style < 0.3:
-            tab.append([rng.randint(1, 60), rng.randrange(6), rng.randrange(7), rng.randint(-1, 3)])
+            tab.append([_gen_size(rng), rng.randrange(6), rng.randrange(7), _gen_zorder(rng)])
         else:
-            tab.append([rng.randint(1, 60) if rng.random() < 0.5 else None,
+            tab.append([_gen_size(rng) if rng.random() < 0.5 else None,
                         rng.randrange(6) if rng.random() < 0.6 else None,
                         rng.choice([0, 1, 2, 3, 6]) if rng.random() < 0.5 else None,
-                        rng.randint(-1, 3) if rng.random() < 0.5 else None])
+                        _gen_zorder(rng) if rng.random() < 0.5 else None])
     return tab
 
 
@@ -531,7 +547,7 @@ def _read_markers(ax, sp):
         sizes = np.asarray(coll.get_sizes())
         fcs = np.asarray(coll.get_facecolors())
         mi = _marker_idx(coll.get_paths()[0])
-        z = _near_int(coll.get_zorder(), "zorder")
+        z = _near_int(coll.get_zorder() * 4, "zorder (quarter units)")
         for i in range(n):
             x, y = _decode_xy(sp, offs[i][0], offs[i][1])
             sn, sd = _size_frac(sizes[i] if len(sizes) == n else sizes[0])
@@ -559,7 +575,7 @@ def _read_collect(data, sp):
         ci = COLORS.index(c) if c in COLORS else -5
         m = data["marker"][i]
         mi = MARKERS.index(m) if m in MARKERS else -5
-        rows.append([x, y, sn, sd, ci, mi, _near_int(data["zorder"][i], "zorder")])
+        rows.append([x, y, sn, sd, ci, mi, _near_int(data["zorder"][i] * 4, "zorder (quarter units)")])
     return rows
 
 
@@ -579,9 +595,9 @@ def _expected_marks(sp, pt, shadow, drawn):
         else:
             lx, ly = x, y
         d = pt[kind] if kind < len(pt) else [None] * 4
-        s = Fraction(d[0]) if d[0] is not None else dflt
+        s = Fraction(d[0], 4) if d[0] is not None else dflt
         rows.append([lx, ly, s.numerator, s.denominator, d[1] if d[1] is not None else 0,
-                     d[2] if d[2] is not None else 0, d[3] if d[3] is not None else 1])
+                     d[2] if d[2] is not None else 0, d[3] if d[3] is not None else 4])
     return sorted(rows)
 
 
@@ -690,13 +706,13 @@ def run_impl(case):
         d = pt[k] if k < len(pt) else [None] * 4
         out = {}
         if d[0] is not None:
-            out["size"] = d[0]
+            out["size"] = _q(d[0])
         if d[1] is not None:
             out["color"] = COLORS[d[1]]
         if d[2] is not None:
             out["marker"] = MARKERS[d[2]]
         if d[3] is not None:
-            out["zorder"] = d[3]
+            out["zorder"] = _q(d[3])
         return out
 
     def portrayal_fn(agent):
@@ -784,8 +800,8 @@ def run_impl(case):
             return
         if sorted(rows) != exp:
             fail("C20/collect/markers-differ", i,
-                 f"collect_agent_data on {cls} with agents {shadow} (id: kind, address) and portrayal table {pt}: rows "
-                 f"[x,y,size_num,size_den,color,marker,zorder] {sorted(rows)}, one per agent as portrayed would be {exp}")
+                 f"collect_agent_data on {cls} with agents {shadow} (id: kind, address) and portrayal table {pt} ([size*4, color, marker, zorder*4] per kind): rows "
+                 f"[x,y,size_num,size_den,color,marker,zorder*4] {sorted(rows)}, one per agent as portrayed would be {exp}")
 
     for i, op in enumerate(case["ops"]):
         kind = op[0]
@@ -864,8 +880,8 @@ def run_impl(case):
                     pass
                 elif sorted(rows) != exp:
                     fail(f"C20/mpl/{fam}/markers-differ", i,
-                         f"draw_space on {cls} {_dims(sp)} with agents {shadow} (id: kind, address), portrayal table {pt}: markers read back from "
-                         f"ax.collections [x,y,size_num,size_den,color,marker,zorder] {sorted(rows)}; exactly one per agent at its location as portrayed is {exp}")
+                         f"draw_space on {cls} {_dims(sp)} with agents {shadow} (id: kind, address), portrayal table {pt} ([size*4, color, marker, zorder*4] per kind): markers read back from "
+                         f"ax.collections [x,y,size_num,size_den,color,marker,zorder*4] {sorted(rows)}; exactly one per agent at its location as portrayed is {exp}")
                 if fam == "Hex":
                     # the drawn mesh: hexagon (row, col) of _get_hexmesh must be centred where the oracle expects it
                     hexes = _get_hexmesh(sp["w"], sp["h"])
@@ -897,10 +913,10 @@ def run_impl(case):
                 for d in vals:
                     x, y = _decode_xy(sp, d["x"], d["y"], raw=True)
                     r = [x, y]
-                    r += [1, _near_int(d["size"], "size")] if "size" in d else [0, 0]
+                    r += [1, _near_int(d["size"] * 4, "size (quarter units)")] if "size" in d else [0, 0]
                     r += [1, COLORS.index(d["color"]) if d["color"] in COLORS else -5] if "color" in d else [0, 0]
                     r += [1, MARKERS.index(d["marker"]) if d["marker"] in MARKERS else -5] if "marker" in d else [0, 0]
-                    r += [1, _near_int(d["zorder"], "zorder")] if "zorder" in d else [0, 0]
+                    r += [1, _near_int(d["zorder"] * 4, "zorder (quarter units)")] if "zorder" in d else [0, 0]
                     extra = set(d) - {"x", "y", "size", "color", "marker", "zorder"}
                     if extra:
                         raise _Bad(f"chart row has fields nobody portrayed: {sorted(extra)}")
@@ -911,7 +927,7 @@ def run_impl(case):
                     pass
                 elif sorted(rows) != exp:
                     fail(f"C20/altair/{fam}/rows-differ", i,
-                         f"altair _draw_grid on {cls} {_dims(sp)} with agents {shadow}, portrayal table {pt}: chart.data.values rows "
+                         f"altair _draw_grid on {cls} {_dims(sp)} with agents {shadow}, portrayal table {pt} ([size*4, color, marker, zorder*4] per kind): chart.data.values rows "
                          f"[x,y,(has,value) for size,color,marker,zorder] {sorted(rows)}; one per agent at its location as portrayed is {exp}")
             elif kind == "layer":
                 _, cm, vmin, vmax, a4 = op
@@ -1139,13 +1155,13 @@ def _read_markers_spring(ax, sp, space, shadow, pt, i, fail):
             node = min(pos, key=lambda k: abs(pos[k][0] - offs[j][0]) + abs(pos[k][1] - offs[j][1]))
             exact = abs(pos[node][0] - offs[j][0]) + abs(pos[node][1] - offs[j][1]) < 1e-9
             s = float(sizes[j] if len(sizes) == n else sizes[0])
-            sn = -1 if abs(s - dflt) < 1e-6 * dflt else _near_int(s, "size")
+            sn = -1 if abs(s - dflt) < 1e-6 * dflt else _near_int(s * 4, "size (quarter units)")
             got.append([node if exact else -7, 0, sn, 1, _color_idx(fcs[j] if len(fcs) == n else fcs[0]),
-                        _marker_idx(coll.get_paths()[0]), _near_int(coll.get_zorder(), "z")])
+                        _marker_idx(coll.get_paths()[0]), _near_int(coll.get_zorder() * 4, "z")])
     exp = []
     for aid, (kind, x, y) in shadow.items():
         d = pt[kind] if kind < len(pt) else [None] * 4
-        exp.append([x, 0, d[0] if d[0] is not None else -1, 1, d[1] or 0, d[2] or 0, d[3] if d[3] is not None else 1])
+        exp.append([x, 0, d[0] if d[0] is not None else -1, 1, d[1] or 0, d[2] or 0, d[3] if d[3] is not None else 4])
     if sorted(got) != sorted(exp):
         fail("C20/mpl/Net/markers-differ", i, f"spring layout: markers [node,0,size(-1 default),1,color,marker,zorder] {sorted(got)}, expected {sorted(exp)}")
     return got
